@@ -58,6 +58,7 @@ pub struct WorkerOut {
     /// stage / case index being processed (copied into failures for replay)
     pub stage: Option<usize>,
     pub idx: Option<u64>,
+    pub total_fails: u64,
 }
 
 /// index of the case the worker is processing and when it started (watchdog: a worker that
@@ -69,6 +70,12 @@ pub fn now_ms() -> u64 {
     static T0: std::sync::OnceLock<Instant> = std::sync::OnceLock::new();
     T0.get_or_init(Instant::now).elapsed().as_millis() as u64
 }
+
+/// set in worker processes: a worker that has recorded this many failing cases prints what it
+/// has and stops (the verdict of the run is decided; a change that breaks nearly every case
+/// would otherwise spend most of its time formatting failures)
+pub static KNOWN_OPEN_KEYS: std::sync::OnceLock<BTreeSet<String>> = std::sync::OnceLock::new();
+pub static WORKER_FAIL_CAP: std::sync::atomic::AtomicU64 = std::sync::atomic::AtomicU64::new(u64::MAX);
 
 impl WorkerOut {
     /// the worker starts case `i`
@@ -92,6 +99,18 @@ impl WorkerOut {
             )
         });
         e.1 += 1;
+        // (cases of recorded known findings do not count: they occur on the unchanged tree)
+        if !KNOWN_OPEN_KEYS.get().map(|k| k.contains(&key)).unwrap_or(false) {
+            self.total_fails += 1;
+        }
+        if self.total_fails >= WORKER_FAIL_CAP.load(std::sync::atomic::Ordering::Relaxed) && !key.starts_with("machinery:") && !key.starts_with("generator:") {
+            *self.counters.entry("workers_stopped_after_many_failures".to_string()).or_insert(0) += 1;
+            println!("WORKER-RESULT {}", self.to_json());
+            use std::io::Write;
+            let _ = std::io::stdout().flush();
+            std::process::exit(0);
+        }
+        let e = self.fails.get_mut(&key).unwrap();
         if e.1 == 1 || (case.len(), &case) < (e.0.case.len(), &e.0.case) {
             e.0 = Fail {
                 loc: match (self.stage, self.idx) {
